@@ -8,7 +8,7 @@ PATHS = ["/", "/a", "/a?k=v", "/a?k=w", "/a?K=V&q=w", "/a?q=", "/A/b", "/ab?k=v"
          # the two uploads that are exempt from SIGNING are not exempt from the rules
          "/vmAgentLog", "/machine/?comp=telemetrydata", "/VMAGENTLOG", "/Machine/?Comp=TelemetryData"]
 DESTS = ["wireserver", "hostga", "imds", "self", "other"]
-ATTR = ["record", "record", "record", "none", "deadpid", "unknownuid", "nonutf8"]
+ATTR = ["record", "record", "record", "none", "deadpid", "unknownuid", "nonutf8", "zombie"]
 # "the client receives an error status (404/421/500/403) instead": the statement names the set, not which member goes with which reason
 ERR = {403, 404, 421, 500}
 # the agent marks every response it relays from a host with this header ("to let the client know it is through proxy agent"); the only
@@ -18,6 +18,9 @@ RELAY_MARK = b"x-ms-azure-host-authorization"
 
 def expected(case, docs, idents):
     """reference decision table from the statement -> set of acceptable client statuses, or 'FORWARD'"""
+    if case["attr"] == "zombie":
+        return None     # a caller that has exited and is not yet reaped (its socket lives on in another process): what the agent can still
+                        # learn about it is not specified - the request must be answered and nothing may panic, the verdict is not judged
     path = case["target"].split("?", 1)[0]
     acceptable = set()
     if ".." in path:
@@ -58,6 +61,7 @@ def worker(args, scratch):
                   w.identity("bob", "Tool", []), w.identity("gidzero", "python3", ["-c", "pass"])]
         bad = w.identity("alice", "bad\udcff\udcfename", ["z"])
         known_ids = {}
+        zombie, zombies = [None], []
         pool = {}     # (dest, ident index) -> open keep-alive connection; survives policy changes on purpose
         for pol in range(args["policies"]):
             docs = {}
@@ -96,6 +100,16 @@ def worker(args, scratch):
                 elif attr == "deadpid":
                     claims.update(processName="", processFullPath="", processCmdLine="undefined")
                     conn = w.open(dest, ident, pid=4000000)
+                elif attr == "zombie":
+                    import subprocess as _sp
+                    if zombie[0] is None or r.random() < 0.2:
+                        z = _sp.Popen([wproxy.HELPER_BIN], stdin=_sp.PIPE, stdout=_sp.DEVNULL, user=ident.uid, group=ident.gid, extra_groups=[])
+                        z.kill()                     # exits; never waited for: stays a zombie for as long as this worker holds the handle
+                        zombies.append(z); zombie[0] = z.pid
+                        import time as _t; _t.sleep(0.02)
+                    claims.update(processName="", processFullPath="", processCmdLine="")
+                    conn = w.open(dest, ident, pid=zombie[0])
+                    bump("requests_attributed_to_a_zombie_process")
                 elif attr == "unknownuid":
                     claims.update(userName="undefined", userGroups=[], userId=54321, runAsElevated=False)
                     conn = w.open(dest, ident, uid=54321)
